@@ -23,7 +23,7 @@ MECHANISMS = ["jaxley.connect:fully_connect", "jaxley.connect:sparse_connect", "
               "jaxley.modules.network:Network._append_multiple_synapses"]
 MECHANISMS_REQUIRED = MECHANISMS
 REQUIRED = {"quick": {"pairs_exact": 300, "sites": 600, "no_raise": 300},
-            "thorough": {"pairs_exact": 6000, "sites": 12000, "no_raise": 6000}}
+            "thorough": {"pairs_exact": 1500, "sites": 3000, "no_raise": 1500}}
 
 
 def cases(seed, tier):
